@@ -63,3 +63,57 @@ PROPS["C12"] = dict(
         "Result::map_err / and_then behave as their definition (rule R10 rewrite, listed in evidence)",
     ],
 )
+
+PROPS["C14"] = dict(
+    verus_units=["core"],
+    technique="Verus contracts on lib.rs guards (refusal mode + no-trap mode) and the six gated endpoint wrappers",
+    level_text="unbounded deductive proof that verify_api_access / verify_network / verify_synced / is_synced return only when their condition holds "
+               "(and never trap when it holds), and that every gated wrapper in lib.rs reaches its implementation only after all three conditions "
+               "were established for the request's network; is_synced equals the 'announced header at most 2 above the tip' rule",
+    level_note="the thread-local state is an explicit immutable value during the guard prefix (rule R7); NextBlockHeaders::get_max_height is opaque "
+               "(its bookkeeping over histories is not verified); candid dispatch in main.rs and send_transaction's guards are covered under C19",
+    explanation="guards extracted twice (refusal: panic! => diverging call, no-trap: panic! => unreachable obligation); wrappers carry an inserted "
+                "ghost assertion of gate_spec immediately before the call of the endpoint implementation.",
+    unverified_links=[
+        "value of next_block_headers_max_height() over histories (NextBlockHeaders is entry-API maps + header hashing: neither tool)",
+        "canister/src/main.rs candid dispatch; get_config/get_blockchain_info/http_request contain no guard call (by inspection of the extracted text only)",
+    ],
+    assumptions=COMMON_ASSUMPTIONS + ["tip height < 2^32 - 2^20 (state_ranges)"],
+)
+
+PROPS["C10"] = dict(
+    verus_units=["core", "valid"],
+    technique="Verus contract on state::insert_block (iff + atomic reject) over assumed contracts of ValidationContext::new / push; validity = unit valid",
+    level_text="unbounded deductive proof that insert_block succeeds iff the parent is in the unstable tree, the block is not already a child of it and "
+               "block validation succeeds at the message time; on failure the whole state is unchanged; on success exactly that block is appended",
+    level_note="ValidationContext::new, unstable_blocks::push, BlockValidator::validate_block are callees with ASSUMED contracts here "
+               "(closure pipelines / Rc<RefCell<dyn>>); decode totality of rust-bitcoin on arbitrary bytes is a dependency",
+    explanation="insert_block extracted verbatim; `?` conversions through the extracted From impls; the `expect` on push is discharged from the contract "
+                "'push succeeds iff the parent is in the tree'. Meaning of 'valid' is C11/C12 (unit valid).",
+    unverified_links=[
+        "heartbeat::maybe_process_response (closure passed to with_state_mut, consensus_decode): order of processing, counters, dropping the rest of a response",
+        "state::insert_next_block_headers (announced headers; entry-API NextBlockHeaders)",
+        "ValidationContext::new / unstable_blocks::push bodies",
+    ],
+    assumptions=COMMON_ASSUMPTIONS + ["block.hash is the hash of block.header (ic_btc_types::Block)"],
+)
+
+PROPS["C03"] = dict(
+    verus_units=["core"],
+    kani=["canister_leaf"],
+    technique="Verus contracts on ingest_stable_blocks_into_utxoset + depth functions + leading-child lemma; Kani full-domain proof of the depth bound",
+    level_text="unbounded deductive proof that the ingestion loop never decreases the stable height, never touches a header recorded below the old stable "
+               "height, pops only the block it ingested, leaves no stable child behind when it reports Done, and changes nothing when there is nothing to do; "
+               "depth / difficulty_based_depth equal max-over-all-branches; a child leading every sibling by a positive margin lies on the served chain; "
+               "testnet depth bound proved over its full domain by Kani",
+    level_note="the decision function get_stable_child (sort_by_key + closures) is NOT under contract: peek/pop are assumed to implement an uninterpreted "
+               "stable_child_spec; UtxoSet::ingest_block(_continue), BlockHeaderStore::insert_block assumed (stable structures)",
+    explanation="see coverage.functions_under_contract; bounded/absent parts are listed under unverified_links.",
+    unverified_links=[
+        "unstable_blocks::get_stable_child: the rule itself (threshold x difficulty(anchor), lead over runner-up, testnet depth escape) is outside Verus "
+        "(enumerate/map/collect/sort_by_key/closures) and Kani cannot build an UnstableBlocks (ic-stable-structures ICE) — NOT decided by this check",
+        "unstable_blocks::pop / peek bodies, UtxoSet::ingest_block(_continue)",
+        "stability threshold raised by set_config while a block is being ingested (pop would return None and the repo's unwrap traps): stated as precondition wf_ingesting",
+    ],
+    assumptions=COMMON_ASSUMPTIONS + ["difficulty(anchor) x stability_threshold < 2^128", "stable height + tree height + 2^20 < 2^32"],
+)
